@@ -1,13 +1,153 @@
 (* C15 - the host-directory file server is confined to its export root.
-   Only statements, each closed by [exact lemma], with Print Assumptions. *)
-From Coq Require Import List NArith ZArith Bool.
-From P9 Require Import Base.Res Model.Path Model.HostFS Model.Ufs Proofs.UfsProofs.
-Import ListNotations.
+   Only statements, each closed by [exact lemma], with Print Assumptions, and
+   non-vacuity Examples.
 
-(* names failing ValidPath never reach the file system: on every host, in every
-   session state, the Walk changes nothing - no host call, no fid, no path *)
+   The operations are Model/Ufs.v's [step]/[run] over the Go translation layer
+   [impl_alg Base]; the host is an ARBITRARY function [hc : H -> hcall -> H * hresult]
+   (nothing is assumed about the kernel), names are arbitrary byte strings.
+
+   FULL STATEMENT of the property, of which the theorems below are the lexical part:
+     "every host object that ufs reads, creates, modifies, renames or removes lies
+      inside the exported directory, and the root cannot be removed or renamed away".
+   Proved: every FileRef.Path is canonical (C15_paths_canonical); every path in every
+   host call is Base followed by good components (C15_host_paths); Remove on "/" is
+   refused without touching the host (C15_root_remove); on the model kernel a rename
+   of a directory to a path at or below itself is a no-op or an error
+   (C15_root_rename_model; the rename target of "/" is such a path by C15_host_paths);
+   names the session or CreateName reject cause no host call (the C15_session_filter theorems).
+   NOT proved (partial clause, DESIGN.md C15): that the kernel resolves a lexically
+   confined path, in a tree without symbolic links, to an object inside the export. *)
+From Coq Require Import List NArith ZArith Bool.
+From P9 Require Import Base.Res Model.Path Model.HostFS Model.Ufs.
+From P9 Require Import Proofs.PathProofs Proofs.PathExtra Proofs.UfsProofs Proofs.UfsProofsPath.
+Import ListNotations.
+Open Scope N_scope.
+
+(* 1+2: for all op sequences with arbitrary names, on every host *)
+Theorem C15_paths_canonical :
+  forall (H : Type) (hc : H -> hcall -> H * hresult) (bcs : list bstr), Forall okcomp bcs ->
+  forall ops h fid r,
+  In (fid, r) (u_fids (fst (run hc (impl_alg (render bcs)) (init h) ops))) -> canon (fr_path (sf_ent r)).
+Proof. intros H hc bcs Hb ops h. exact (proj1 (impl_confined hc bcs Hb ops h)). Qed.
+Print Assumptions C15_paths_canonical.
+
+Theorem C15_host_paths :
+  forall (H : Type) (hc : H -> hcall -> H * hresult) (bcs : list bstr), Forall okcomp bcs ->
+  forall ops h c p,
+  In c (u_log (fst (run hc (impl_alg (render bcs)) (init h) ops))) -> In p (hcall_paths c) -> under bcs p.
+Proof. intros H hc bcs Hb ops h. exact (proj2 (impl_confined hc bcs Hb ops h)). Qed.
+Print Assumptions C15_host_paths.
+
+(* fullPath - the only constructor of host paths from new internal paths - accepts exactly the canonical ones *)
+Theorem C15_fullpath_sound :
+  forall base p hp, fs_fullpath base p = Some hp -> canon p /\ hp = fp_join base p.
+Proof. exact fullpath_canon. Qed.
+Print Assumptions C15_fullpath_sound.
+
+Theorem C15_fullpath_complete :
+  forall bcs cs, Forall okcomp bcs -> Forall good cs ->
+  fs_fullpath (render bcs) (render cs) = Some (render (bcs ++ cs)) /\
+  ref_fullpath (render bcs) (render cs) = render (bcs ++ cs).
+Proof. exact canon_fullpath. Qed.
+Print Assumptions C15_fullpath_complete.
+
+(* no session call panics (WalkName's dir[:len(dir)-1]) or blocks, whatever the names *)
+Theorem C15_no_panic :
+  forall (H : Type) (hc : H -> hcall -> H * hresult) (bcs : list bstr), Forall okcomp bcs ->
+  forall ops h,
+  ~ In ObPanic (snd (run hc (impl_alg (render bcs)) (init h) ops)) /\
+  ~ In ObHang (snd (run hc (impl_alg (render bcs)) (init h) ops)).
+Proof. intros H hc bcs Hb ops h. exact (impl_no_panic hc bcs Hb ops h). Qed.
+Print Assumptions C15_no_panic.
+
+(* 3: the root *)
+Theorem C15_root_remove :
+  forall (H : Type) (hc : H -> hcall -> H * hresult) base s fid r,
+  u_stuck s = false -> fid_get fid (u_fids s) = Some r -> fr_path (sf_ent r) = [SLASH] ->
+  snd (step hc (impl_alg base) s (OpRemove fid)) = ObErr /\
+  (forall c, In c (u_log (fst (step hc (impl_alg base) s (OpRemove fid)))) -> In c (u_log s) \/ exists fd, c = HClose fd).
+Proof. exact @impl_remove_root. Qed.
+Print Assumptions C15_root_remove.
+
+Theorem C15_root_rename_model :
+  forall h a b ca cb,
+  kpath a = Some ca -> kpath b = Some cb -> is_prefix ca cb = true -> src_is_dir h a = true ->
+  fst (h_rename h a b) = h.
+Proof. exact h_rename_into_self. Qed.
+Print Assumptions C15_root_rename_model.
+
+(* 4: the filters *)
 Theorem C15_session_filter_walk :
   forall (H : Type) (hc : H -> hcall -> H * hresult) base s fid newfid names,
   valid_path names = (-1)%Z -> fst (step hc (impl_alg base) s (OpWalk fid newfid names)) = s.
 Proof. exact @impl_walk_filter. Qed.
 Print Assumptions C15_session_filter_walk.
+
+Theorem C15_session_filter_create :
+  forall (H : Type) (hc : H -> hcall -> H * hresult) base s fid name perm mode,
+  name = [DOT] \/ name = DOTDOT -> fst (step hc (impl_alg base) s (OpCreate fid name perm mode)) = s.
+Proof. exact @impl_create_filter_dots. Qed.
+Print Assumptions C15_session_filter_create.
+
+Theorem C15_create_name_filter :
+  forall (H : Type) (hc : H -> hcall -> H * hresult) base s fid name perm mode,
+  has_sep name = true \/ name = [] \/ name = [DOT] \/ name = DOTDOT ->
+  fst (step hc (impl_alg base) s (OpCreate fid name perm mode)) = s.
+Proof. exact @impl_create_filter. Qed.
+Print Assumptions C15_create_name_filter.
+
+(* ---------------- non-vacuity ---------------- *)
+
+Definition nm_a : bstr := [97].  Definition nm_b : bstr := [98].
+Definition DMDIR755 : N := 2147483648 + 493.
+(* "../../../b" *)
+Definition hostile_up : bstr := [46;46;47; 46;46;47; 46;46;47; 98].
+(* "../outside/x" *)
+Definition hostile_out : bstr := [46;46;47] ++ b_outside ++ [47; 120].
+Definition demo_ops : list op :=
+  [OpAttach 0; OpWalk 0 1 []; OpCreate 1 nm_a DMDIR755 0;
+   OpWstat 1 hostile_up 4294967295 18446744073709551615 [] [];      (* accepted: /a -> /b *)
+   OpWstat 1 hostile_out 4294967295 18446744073709551615 [] [];     (* Join("/", "../outside/x") = "/outside/x": inside, ENOENT *)
+   OpWalk 0 2 [DOTDOT]; OpWalk 1 3 [DOTDOT; DOTDOT];                (* ".." at the root / beyond the depth: refused *)
+   OpRemove 0].                                                     (* root: refused *)
+
+(* the base hypothesis is satisfiable: the sandbox's /S/export *)
+Example C15_base_ok : Forall okcomp [bS; b_export] /\ render [bS; b_export] = sandbox_base.
+Proof.
+  split; [|reflexivity].
+  repeat constructor; try discriminate; intros Hin; simpl in Hin;
+    repeat (destruct Hin as [Hin|Hin]; [discriminate|]); exact Hin.
+Qed.
+Print Assumptions C15_base_ok.
+
+(* a concrete session on the model kernel in which a hostile rename IS accepted; the
+   theorems' conclusions are visible: paths "/", "/b"; the rename went to /S/export/b *)
+Example C15_demo_run :
+  let s := fst (run hcall_posix (impl_alg sandbox_base) (init (sandbox 18)) demo_ops) in
+  snd (run hcall_posix (impl_alg sandbox_base) (init (sandbox 18)) demo_ops)
+    = [ObQid true; ObWalk 0 false; ObQid true; ObOk; ObErr; ObErr; ObErr; ObErr] /\
+  map (fun e => (fst e, fr_path (sf_ent (snd e)))) (u_fids s) = [(1, SLASH :: nm_b)] /\
+  In (HRename (sandbox_base ++ SLASH :: nm_a) (sandbox_base ++ SLASH :: nm_b)) (u_log s) /\
+  In (HRename (sandbox_base ++ SLASH :: nm_b) (sandbox_base ++ SLASH :: b_outside ++ [47; 120])) (u_log s) /\
+  dump_tree 8 (h_inodes (u_host s)) [] 4 = dump_tree 8 (h_inodes (sandbox 18)) [] 4.
+Proof. vm_compute. repeat split; auto 20. Qed.
+Print Assumptions C15_demo_run.
+
+(* hypotheses of C15_root_remove and C15_root_rename_model are satisfiable *)
+Example C15_root_hyps :
+  let s := fst (run hcall_posix (impl_alg sandbox_base) (init (sandbox 18)) [OpAttach 0]) in
+  u_stuck s = false /\
+  (exists r, fid_get 0 (u_fids s) = Some r /\ fr_path (sf_ent r) = [SLASH]) /\
+  (exists ca cb, kpath sandbox_base = Some ca /\ kpath (sandbox_base ++ SLASH :: nm_a) = Some cb /\
+                 is_prefix ca cb = true /\ src_is_dir (sandbox 18) sandbox_base = true).
+Proof.
+  vm_compute. split; [reflexivity|]. split; [eexists; split; reflexivity|].
+  eexists; eexists; repeat split; reflexivity.
+Qed.
+Print Assumptions C15_root_hyps.
+
+(* the filter hypotheses: a rejected walk and a rejected create name exist *)
+Example C15_filter_hyps :
+  valid_path [nm_a; DOTDOT] = (-1)%Z /\ valid_path [[97; 47; 98]] = (-1)%Z /\ has_sep [97; 92; 98] = true.
+Proof. vm_compute. auto. Qed.
+Print Assumptions C15_filter_hyps.
